@@ -23,6 +23,7 @@ from __future__ import annotations
 import abc
 import logging
 import os
+import string
 import sys
 import typing
 import warnings
@@ -364,12 +365,22 @@ def _color_desc_88(num: int) -> str:
     return f"g{_GRAY_STEPS_88_101[num - _GRAY_START_88]:d}"
 
 
+def _is_hex(text: str) -> bool:
+    """
+    Return True if text consists of hexadecimal digits only.
+
+    int(text, 16) is more lenient: it also accepts a sign, '_' separators,
+    a '0x' prefix and surrounding whitespace.
+    """
+    return all(c in string.hexdigits for c in text)
+
+
 def _parse_color_true(desc: str) -> int | None:
     if (c := _parse_color_256(desc)) is not None:
         (r, g, b) = _COLOR_VALUES_256[c]
         return (r << 16) + (g << 8) + b
 
-    if not desc.startswith("#"):
+    if not (desc.startswith("#") and _is_hex(desc[1:])):
         return None
 
     if len(desc) == 7:
@@ -453,7 +464,7 @@ def _parse_color_256(desc: str) -> int | None:
 
 
 def _true_to_256(desc: str) -> str | None:
-    if not (desc.startswith("#") and len(desc) == 7):
+    if not (desc.startswith("#") and len(desc) == 7 and _is_hex(desc[1:])):
         return None
 
     c256 = _parse_color_256("#" + "".join(format(int(x, 16) // 16, "x") for x in (desc[1:3], desc[3:5], desc[5:7])))
